@@ -1,3 +1,4 @@
+import Rp2.Props.Tables.Loops
 import Rp2.Proofs.Yearly
 import Rp2.Proofs.YearlyModel
 /-! # C06 — yearly summary equals the sum of its detail fractions -/
@@ -20,4 +21,12 @@ theorem key_uses_event_year (period : Int) (f : Fraction) : (yearKey period f).y
 /-- under `LocalDatesMonotone` the fractions summarised for a to-date are exactly those dated up to it -/
 theorem to_date_cut_is_filter {α} (day : α → Int) (t : Int) (l : List α) (hmono : l.Pairwise (fun a b => day a ≤ day b)) :
     cutAt day (some t) l = l.filter (fun x => decide (day x ≤ t)) := cutAt_eq_filter day t l hmono
+
+/-- **tie to the source (translator)**: `EntrySetIterator.__next__`, as translated from the Python source on this run, yields exactly the
+    model's window `viewOf` — the entries up to (not including) the first one dated after the to-date, without those dated before the
+    from-date; both bounds inclusive, dates being the entries' own local dates.  Every filtered table, summary and report is read through it. -/
+theorem source_iterator_is_window {α : Type} (day utcDay : α → Int) (fromD toD : Int) (l : List α) :
+    drain (Gen.L.iterNext day utcDay fromD toD) (l.length + 1) l = viewOf day (some fromD) (some toD) l :=
+  Tables.iterator_is_window day utcDay fromD toD l (l.length + 1) (by omega)
+
 end Rp2.C06
